@@ -46,9 +46,13 @@ def parse_routes_impl(res):
         out['gc'] = t.next() if t.peek() != 'VIAF' else ''
     t.expect('VIAF')
     if t.peek() == '-':
+        t.next()
         out['viaf'] = None
     else:
         out['viaf'] = parse_voronoi_tok(t)
+    if t.peek() == 'BVC':
+        t.next()
+        out['bvc'] = t.next()
     return out
 
 
